@@ -770,6 +770,34 @@ func (ev *SpecEnv) call(n *SCall) TV {
 			}
 			nv[p.Name] = a
 		}
+		if sf.Body == nil {
+			// uninterpreted function of the argument values (slices: by content)
+			var args []*Term
+			for _, p := range sf.Params {
+				a := nv[p.Name]
+				switch v := a.v.(type) {
+				case *Term:
+					args = append(args, v)
+				case *SliceV:
+					et := a.t.Underlying().(*types.Slice).Elem()
+					es := x.scalarSort(et)
+					if es == "" {
+						unsupp("uninterpreted spec %s over slice of compound elements", name)
+					}
+					h := ev.state().getHeap("elem:"+typeKey(et), SArr(x.refSort(), SArr(x.refSort(), es)))
+					args = append(args, tc.Select(h, v.arr), v.off, v.ln)
+				default:
+					unsupp("uninterpreted spec %s: argument kind %T", name, a.v)
+				}
+			}
+			rt := ev.lookupTypeIn(sf.Ret, sf.Pkg)
+			if rt == nil {
+				unsupp("uninterpreted spec %s: unknown result type %q", name, sf.Ret)
+			}
+			r := tc.UF("spec:"+sf.Name, x.scalarSort(rt), args...)
+			x.rangeFact(r, rt)
+			return TV{r, rt}
+		}
 		sub := &SpecEnv{x: x, fr: nil, vars: nv, cur: ev.cur, old: ev.old, c: ev.c, pkgPath: sf.Pkg, inOld: ev.inOld, depth: ev.depth + 1}
 		r := sub.eval(sf.Body)
 		if sf.Ret != "" {
